@@ -1233,7 +1233,7 @@ def run(ctx):
         "design: data of that original are not compared, its noise settings "
         "are")
     quick = ctx.quick
-    cap = ctx.budget or (340 if quick else 1680)
+    cap = ctx.budget or (700 if quick else 2800)
     stub, comp = e1_cases(ctx.tier)
     if ctx.wants('formula'):
         ctx.explore(
